@@ -3,3 +3,6 @@ import Model.HCMSpec
 import Proofs.C04Basic
 import Proofs.C04Periodic
 import Proofs.C04Insert
+import Proofs.C04Pass2
+import Proofs.C04Code
+import Proofs.C04InsertCode
